@@ -157,3 +157,61 @@ func reachesAvoiding(from, to, avoid *ssa.BasicBlock) bool {
 	}
 	return false
 }
+
+// lockLeaks: for every Lock() in f that is not paired with a deferred Unlock, a path from
+// the Lock to a return that passes no Unlock of the same mutex.
+func lockLeaks(f *ssa.Function) []lockCall {
+	calls := lockCalls(f)
+	var leaks []lockCall
+	for _, lc := range calls {
+		if !lc.lock || lc.defer_ {
+			continue
+		}
+		deferred := false
+		for _, uc := range calls {
+			if !uc.lock && uc.id == lc.id && uc.defer_ {
+				deferred = true
+			}
+		}
+		if deferred {
+			continue
+		}
+		unlock := map[ssa.Instruction]bool{}
+		for _, uc := range calls {
+			if !uc.lock && uc.id == lc.id {
+				unlock[uc.ins] = true
+			}
+		}
+		seen := map[*ssa.BasicBlock]bool{}
+		leak := false
+		var walk func(b *ssa.BasicBlock, from int)
+		walk = func(b *ssa.BasicBlock, from int) {
+			if leak {
+				return
+			}
+			for _, ins := range b.Instrs[from:] {
+				if unlock[ins] {
+					return
+				}
+				if _, isRet := ins.(*ssa.Return); isRet {
+					leak = true
+					return
+				}
+				if _, isPanic := ins.(*ssa.Panic); isPanic {
+					return
+				}
+			}
+			for _, s := range b.Succs {
+				if !seen[s] {
+					seen[s] = true
+					walk(s, 0)
+				}
+			}
+		}
+		walk(lc.ins.Block(), instrIndex(lc.ins)+1)
+		if leak {
+			leaks = append(leaks, lc)
+		}
+	}
+	return leaks
+}
